@@ -103,6 +103,35 @@ def clear (p : PList) : Option PList :=
   | none => none
   | some p1 => some { p1 with begin := 0, prev := set p1.prev 0 none, size := 0 }   -- _begin.item = &endItem; endItem.prev = 0; _size = 0;
 
+/-- the loop of `insert(position, list)`, of the copy constructor and of `operator=`: every value is inserted
+    in front of the same `pos` item -/
+def insertMany (p : PList) (pos : Nat) : List Int → Option PList
+  | [] => some p
+  | v :: vs =>
+    match insert p pos v with
+    | some (p', _) => insertMany p' pos vs
+    | none => none
+
+/-- `find(value)`: `for(i = _begin.item; i != end; i = i->next) if(i->value == value) return i; return _end;`
+    (`fuel` bounds the iterations; `none` = exhausted or null `next`) -/
+def findLoop (p : PList) (v : Int) : Nat → Nat → Option Nat
+  | _, 0 => some 0
+  | 0, _ + 1 => none
+  | fuel + 1, i + 1 =>
+    if p.val (i + 1) = v then some (i + 1)
+    else match p.next (i + 1) with
+      | some n => findLoop p v fuel n
+      | none => none
+
+def find (p : PList) (v : Int) : Option Nat := findLoop p v p.size p.begin
+
+/-- `remove(const T& value)`: `it = find(value); if(it != _end) remove(it);` -/
+def removeValue (p : PList) (v : Int) : Option PList :=
+  match find p v with
+  | none => none
+  | some 0 => some p
+  | some (a + 1) => (remove p (a + 1)).map (·.1)
+
 /-! ### `sort()` on the heap: the pointers are item addresses, `ptr->next` is a heap read, the loop ends on
     pointer equality -/
 
@@ -163,6 +192,8 @@ inductive POp where
   | remove (k : Nat)
   | clear
   | sort
+  | insertList (k : Nat) (vs : List Int)
+  | removeValue (v : Int)
 
 def step (p : PList) : POp → Option PList
   | .insert k v =>
@@ -179,6 +210,13 @@ def step (p : PList) : POp → Option PList
     else none
   | .clear => clear p
   | .sort => sortP ltInt p
+  | .insertList k vs =>
+    if k ≤ p.size then
+      match walk p p.begin k with
+      | some a => insertMany p a vs
+      | none => none
+    else none
+  | .removeValue v => removeValue p v
 
 def run (p : PList) : List POp → PList
   | [] => p
@@ -193,6 +231,8 @@ def stepChain (s : LState) : POp → Option LState
   | .remove k => (s.remove k).map (·.st)
   | .clear => some s.clear
   | .sort => s.sort.map (·.st)
+  | .insertList k vs => (s.insertList k vs).map (·.st)
+  | .removeValue v => (s.removeValue v).map (·.st)
 
 def runChain (s : LState) : List POp → LState
   | [] => s
